@@ -79,6 +79,13 @@ def cells(tier):
                     'store_pool': 1})
         out.append({'kind': 'flush', 'backend': 'disk', 'msgs': 2,
                     'store_pool': 1})
+        # a store that announces its own writes (redis) and is slow to fetch
+        out.append({'kind': 'retry', 'backend': 'redis', 'msgs': 1,
+                    'fails': 1, 'slow_get': 12})
+        out.append({'kind': 'inject', 'backend': 'redis', 'K': 12,
+                    'slow_get': 10, 'early': 1})
+        out.append({'kind': 'inject', 'backend': 'disk', 'K': 16,
+                    'slow_get': 10, 'early': 1})
         # retries run out (the message must leave storage, not linger there
         # unscheduled), smallest pools alone and together
         out.append({'kind': 'retry', 'backend': 'dict', 'msgs': 1, 'fails': 2,
@@ -140,6 +147,19 @@ class World(object):
             self.due.setdefault(id, []).append((qc.now(), when))
             return r
         self.store.set_timestamp = set_timestamp
+        if cell.get('slow_get'):
+            # fetching a message takes an arbitrary number of extra
+            # scheduler turns (a slow / remote store)
+            orig_get = self.store.get
+            ngets = [0]
+
+            def get(id):
+                k = ngets[0]
+                ngets[0] += 1
+                for _ in range(api.choice('getlat%d' % k, cell['slow_get'])):
+                    qc.yield_point()
+                return orig_get(id)
+            self.store.get = get
         self.nfail = nfail
 
         def decide(rec):
@@ -423,11 +443,26 @@ def run_inject(cell):
     orig_write = store.write
 
     def write(envelope, timestamp):
+        state['ts'] = timestamp
         qid = orig_write(envelope, timestamp)
         state['id'] = qid
-        state['ts'] = timestamp
         return qid
     store.write = write
+    if cell.get('early'):
+        # the id can be announced (by the storage's own notification, or by
+        # another process listing the store) from the moment it is chosen,
+        # i.e. while write() is still running
+        import sys
+        mod = sys.modules[type(store).__module__]
+        real_uuid = mod.uuid
+
+        class SpyUUID(object):
+            def uuid4(self):
+                u = real_uuid.uuid4()
+                state['id'] = u.hex
+                state.setdefault('ts', 0)
+                return u
+        mod.uuid = SpyUUID()
     ids = {'m0': w.queue.enqueue(qc.make_envelope('m0', 's@z',
                                                   ['a@x']))[0][1]}
     qc.run_until_quiescent()
